@@ -66,7 +66,8 @@ def random_model(rng):
         if rng.random() < 0.4:
             rng.shuffle(block)
         feats += block
-    ref = [rng.choice([65, 67, 71, 84, 97, 99, 103, 116, 78]) for _ in range(rng.randint(20, 60))]
+    alphabet = [65, 67, 71, 84, 97, 99, 103, 116, 78] * 3 + [ord(c) for c in "RYKMBDHVWSryswkmbdhvn"]        # IUPAC ambiguity codes and soft-masked bases as well
+    ref = [rng.choice(alphabet) for _ in range(rng.randint(20, 60))]
     qs = []
     for _ in range(6):
         s = rng.randint(1, len(ref))
